@@ -361,7 +361,8 @@ def m_clock(I, fn, n, args, st):
 
 
 def m_fileno(I, fn, n, args, st):
-    return [(st, fs(-1)), (st, fs(("ext", "fileno")))]
+    # fileno() fails only with EBADF (the stream has no valid descriptor)
+    return [(with_errno(st, fs(I.abs_int(9))), fs(-1)), (st, fs(("ext", "fileno")))]
 
 
 def m_pure_int(I, fn, n, args, st):
